@@ -5,15 +5,17 @@ import QF.Core.CsvL1
 # C12 — ReadCSV parses RFC 4180 for any fragmentation of the stream
 
 Mirror: `Full.readAll` follows internal/fastcsv/csv.go (bufferedReader.more/reset,
-nextUnquotedField, nextQuotedField with look-ahead, in-place compaction, quoteCount,
-fields.next, Reader.Next with CR trimming and the blank-last-line rule), driven by a
-read schedule (list of chunk sizes).
+nextUnquotedField, nextQuotedField with look-ahead, in-place compaction, quoteCount, CR skipped only
+after a closing quote, trailing delimiter at the end of the input; fields.next with the empty last
+field after a trailing delimiter; Reader.Next with CR trimming and the blank-last-line rule), driven
+by a read schedule (list of chunk sizes).
 
 * `read_schedule_independent`: whatever the schedule, the reader returns what it returns
   when the whole document is already loaded.
 * `any_two_schedules_agree`: hence any two schedules give the same rows, fields and error.
 * `quoted_eq_qscan`, `qscan_content`: on a loaded buffer the in-place compacting loop equals
-  a buffer-free scanner, and that scanner reads an escaped field back as its content.
+  a buffer-free scanner, and that scanner reads an escaped field back as its content (any content,
+  carriage returns included: `qscan_content'`).
 -/
 namespace QF.Props.C12
 
@@ -29,11 +31,19 @@ theorem any_two_schedules_agree (delim : Full.Byte) (fuel n : Nat) (doc : List F
     (h2 : Full.readAll delim fuel n (Full.initFS doc s2) [] = some r2) : r1 = r2 :=
   Full.any_two_schedules_agree delim fuel n doc s1 s2 r1 r2 h1 h2
 
-theorem qscan_content (delim : Sim.Byte) (hd : (Sim.QUOTE == delim) = false) (content tail acc : List Sim.Byte)
-    (hcr : ¬Sim.CR ∈ content) (ht : tail ≠ []) :
+/-- repaired `nextQuotedField`: the content may be anything — carriage returns included -/
+theorem qscan_content' (delim : Sim.Byte) (hd : (Sim.QUOTE == delim) = false) (content tail acc : List Sim.Byte)
+    (ht : tail ≠ []) :
     Sim.qscan delim (Sim.escape content ++ tail) acc 0 (Sim.hd (Sim.escape content ++ tail)) =
       Sim.qscan delim tail (acc ++ content) 0 (Sim.hd tail) :=
-  Sim.qscan_content delim hd content tail acc hcr ht
+  Sim.qscan_content delim hd content tail acc ht
+
+/-- as stated before the repair (content without CR) -/
+theorem qscan_content (delim : Sim.Byte) (hd : (Sim.QUOTE == delim) = false) (content tail acc : List Sim.Byte)
+    (_hcr : ¬Sim.CR ∈ content) (ht : tail ≠ []) :
+    Sim.qscan delim (Sim.escape content ++ tail) acc 0 (Sim.hd (Sim.escape content ++ tail)) =
+      Sim.qscan delim tail (acc ++ content) 0 (Sim.hd tail) :=
+  Sim.qscan_content delim hd content tail acc ht
 
 /-- T1: the functions this property's mirror model follows have today the source text the model was written against. -/
 theorem tie : Tie.sameAll ["fastcsv.bufferedReader.more", "fastcsv.bufferedReader.reset", "fastcsv.fields.nextUnquotedField", "fastcsv.nextQuotedField", "fastcsv.fields.next", "fastcsv.Reader.Next", "fastcsv.eofReaderWrapper.Read", "io.ReadCSV", "io.columnToData", "io.renameDuplicateColumns", "io.addAliasToMissingColumnNames", "io.isEmptyLine", "qframe.ReadCSV"] = true := by decide
